@@ -1,6 +1,7 @@
 package otto
 
 import (
+	"fmt"
 	"math"
 	"time"
 )
@@ -67,7 +68,12 @@ func builtinDateToISOString(call FunctionCall) Value {
 	if date.isNaN {
 		panic(call.runtime.panicRangeError("Invalid time value")) // 15.9.5.43
 	}
-	return stringValue(date.Time().Format("2006-01-02T15:04:05.000Z"))
+	t := date.Time()
+	if year := t.Year(); year < 0 || year > 9999 {
+		// 15.9.1.15.1: expanded years have a sign and six digits.
+		return stringValue(fmt.Sprintf("%+07d", year) + t.Format("-01-02T15:04:05.000Z"))
+	}
+	return stringValue(t.Format("2006-01-02T15:04:05.000Z"))
 }
 
 func builtinDateToJSON(call FunctionCall) Value {
